@@ -53,7 +53,7 @@ def cases(draw, tier="quick"):
                 ps.append(["mode", md])
         if f in E.FN_FEATURES:
             if S.chance(draw, 0.45):
-                nm = draw(st.sampled_from(["%s_x" % f.lower(), "my%s" % f.capitalize(), "ünï_%s" % f.lower(), "%s2" % f, "get_%s" % f.lower()]))
+                nm = draw(st.sampled_from(["%s_x" % f.lower(), "my%s" % f.capitalize(), "ünï_%s" % f.lower(), "%s2" % f, "get_%s" % f.lower(), "__u_%s" % f.lower(), "_%s" % f.lower()]))
                 if nm not in used and nm not in E.ALL_FEATURES:
                     used.add(nm)
                     ps.append(["name", nm])
